@@ -1,6 +1,7 @@
 package c20
 
 import (
+	"bytes"
 	"encoding/json"
 	"fmt"
 	"os"
@@ -120,11 +121,101 @@ func StashWorker(ctx *common.Ctx) {
 
 var stashPool = [][]string{
 	{"(a)"}, {"(b 1)"}, {"(c 2 3)"}, {"(defun f ()", "  1)"}, {"(let ((x 1))", "  x)"}, {"(d)"}, {"(e \"s\")"},
-	{"(e \"λ é\")"}, {"x"}, {"  (lead)"}, {"(trail)  "}, {"(s \"(\")"}, {"(k ; not closed )", "  2)"}, {"(q \"a\\\"b\" \")\")"},
+	{"(e \"λ é\")"}, {"(λ é)"}, {"x"}, {"  (lead)"}, {"(trail)  "}, {"(s \"(\")"}, {"(k ; not closed )", "  2)"}, {"(q \"a\\\"b\" \")\")"},
 	{"(three", "  ", "  lines)"}, {"\"a string", "over two lines\""}, {"(e", "", ")"}, {"(defun g ()", "", "", "  2)"},
 }
 var stashOdd = [][]string{
-	{"   "}, {}, {"(a\tb)"}, {"(p"}, {"(two)", "(forms)"}, {"", "(first-empty)"}, {"(last-empty)", ""}, {")"}, {"(λ é)"},
+	{"   "}, {}, {"(a\tb)"}, {"(p"}, {"(two)", "(forms)"}, {"", "(first-empty)"}, {"(last-empty)", ""}, {")"}, {"x;1"},
+}
+
+// ---- the reader's verdicts, asked of the real reader ----
+
+// readerVerdict is what Stash.LoadExpanded's fullForm finds out about a text: slip.Read in the REPL's scope under
+// recover; 0 = read completely, 1 = *slip.PartialPanic (ends inside a list or string), 2 = any other reader failure.
+func readerVerdict(text []byte) (v int) {
+	defer func() {
+		if r := recover(); r != nil {
+			if _, ok := r.(*slip.PartialPanic); ok {
+				v = 1
+			} else {
+				v = 2
+			}
+		}
+	}()
+	_ = slip.Read(append([]byte{}, text...), repl.GetScope())
+	return 0
+}
+
+// oracle collects the verdicts of the real reader for the texts the model will ask about.
+type oracle struct {
+	seen  map[string]int
+	order []string
+}
+
+func (o *oracle) ask(text []byte) int {
+	if v, ok := o.seen[string(text)]; ok {
+		return v
+	}
+	v := readerVerdict(text)
+	o.seen[string(text)] = v
+	o.order = append(o.order, string(text))
+	return v
+}
+
+// file asks about every text LoadExpanded puts to the reader while it loads a file with this content: complete
+// lines only; an empty line is skipped unless a form has begun; a line is split at TABs; the text grows until
+// the reader accepts it; a reader failure ends the load.
+func (o *oracle) file(content []byte) {
+	lines := bytes.Split(content, []byte{'\n'})
+	lines = lines[:len(lines)-1] // what follows the last newline is not a line
+	var buf []byte
+	n := 0
+	for _, line := range lines {
+		if len(line) == 0 && n == 0 {
+			continue
+		}
+		for _, sub := range bytes.Split(line, []byte{'\t'}) {
+			buf = append(append(buf, sub...), '\n')
+			n++
+		}
+		switch o.ask(buf) {
+		case 0:
+			buf, n = nil, 0
+		case 2:
+			return
+		}
+	}
+}
+
+// form asks about every line-prefix of a form (what the guard `sencodable` needs).
+func (o *oracle) form(lines []string) {
+	var buf []byte
+	for _, l := range lines {
+		buf = append(append(buf, l...), '\n')
+		o.ask(buf)
+	}
+}
+
+func (o *oracle) path(file string) {
+	if data, err := os.ReadFile(file); err == nil {
+		o.file(data)
+	}
+}
+
+func (o *oracle) verdicts() map[string]string {
+	m := map[string]string{}
+	for t, v := range o.seen {
+		m[t] = []string{"complete", "partial", "error"}[v]
+	}
+	return m
+}
+
+func (o *oracle) gterm() string {
+	xs := make([]string, len(o.order))
+	for i, t := range o.order {
+		xs[i] = fmt.Sprintf("(%s, %d%%N)", gBytes(t), o.seen[t])
+	}
+	return common.GList(xs)
 }
 
 func gSOp(o SOp) string {
@@ -211,6 +302,19 @@ func stashRuns(ctx *common.Ctx, self, base string) (terms []string, descs []any)
 				ops = append(ops, SOp{Kind: "restart"})
 			}
 		}
+		// what the real reader says about every text the model will ask about
+		orc := &oracle{seen: map[string]int{}}
+		orc.path(file)
+		if ld0, _ := loadFreshStash(file); true {
+			for _, f := range ld0 {
+				orc.form(f)
+			}
+		}
+		for _, o := range ops {
+			if o.Kind == "add" {
+				orc.form(o.Form)
+			}
+		}
 		// (a) in process
 		stashRestart(file)
 		var gops, gobs []string
@@ -222,6 +326,7 @@ func stashRuns(ctx *common.Ctx, self, base string) (terms []string, descs []any)
 			}
 			hf, hraw := gFile(file)
 			tf, traw := gFile(file + ".tmp")
+			orc.path(file)
 			mem := stashForms(&repl.TheStash)
 			ld, ok := loadFreshStash(file)
 			gops = append(gops, gSOp(o))
@@ -240,15 +345,17 @@ func stashRuns(ctx *common.Ctx, self, base string) (terms []string, descs []any)
 				},
 				init0: init0, stale: stale,
 				observe: func(f string) (string, any) {
+					orc.path(f)
 					ld, ok := loadFreshStash(f)
 					return gLoad(ld, ok), map[string]any{"forms": ld, "ok": ok}
 				}})
 			crashTerm = common.GList(cobs)
 			crashRec = crec
 		}
-		terms = append(terms, fmt.Sprintf("{| s_d0 := {| d_hist := %s; d_tmp := %s |}; s_ops := %s;\n     s_obs := %s;\n     s_crash := %s |}",
-			d0h, d0t, common.GList(gops), common.GList(gobs), crashTerm))
-		descs = append(descs, map[string]any{"initial_stash": init0, "stale_tmp": stale, "steps": recs, "crash_runs": crashRec})
+		terms = append(terms, fmt.Sprintf("{| s_d0 := {| d_hist := %s; d_tmp := %s |}; s_ops := %s;\n     s_obs := %s;\n     s_crash := %s;\n     s_rd := %s |}",
+			d0h, d0t, common.GList(gops), common.GList(gobs), crashTerm, orc.gterm()))
+		ctx.Hist(fmt.Sprintf("stash-reader-texts:%d", (len(orc.order)+19)/20*20))
+		descs = append(descs, map[string]any{"initial_stash": init0, "stale_tmp": stale, "steps": recs, "crash_runs": crashRec, "reader_verdicts": orc.verdicts()})
 		ctx.Meta.Evaluations++
 		if k%41 == 0 {
 			ctx.Sample(map[string]any{"stash_ops": ops, "initial_stash": init0})
